@@ -339,7 +339,11 @@ func dischargeAll(obls []*Obligation, opts RunOpts) {
 			sem <- struct{}{}
 			defer func() { <-sem }()
 			q := o.query(false)
-			res := solve(q, opts.Timeout, opts.Workdir, o.Name, opts.Agree)
+			to := opts.Timeout
+			if o.Cover && to > 5*time.Second {
+				to = 5 * time.Second // a reachability cover either finds a state quickly or is recorded as unknown
+			}
+			res := solve(q, to, opts.Workdir, o.Name, opts.Agree)
 			if res.Status == "sat" && !o.Cover && len(o.Ctx.witness) > 0 {
 				// ask again for the witness values
 				q2 := o.query(true)
